@@ -197,6 +197,91 @@ theorem memo_keyed_by_int_history_dependent :
       ≠ [.crcKept ccittFalse true (natToBits 16 0x0123) false, .crcKept ccittFalse true (natToBits 8 0 ++ natToBits 16 0x0123) false].map pureOut :=
   memo_collision_history_dependent keyInt _ _ (by decide +kernel) (by decide +kernel)
 
+/-! ## an argument in another accepted form; the wall clock at import
+
+`CRC9.calculate_from_parts(data, …)` converts `data` with `bytes_to_bits` and then appends to the converted array IN PLACE.
+That is harmless as long as the conversion hands back a new object for EVERY form of `data` its own code accepts (bytes,
+bytearray, memoryview, a bit array of either bit order): the model takes the form as part of the call. -/
+
+/-- **no accepted form of `data` is altered** (the instance of `args_unchanged` for `calculate_from_parts`), … -/
+theorem conversion_copies (s : S) (h : Inv s) (form : BufForm) (data : Bits) (sn mask : Nat) (crc32 : Option Bytes) :
+    (step s (.crc9Parts form data sn mask crc32)).2.2 = .crc9Parts form data sn mask crc32 :=
+  args_unchanged s _ h (fun _ _ hc => nomatch hc)
+
+/-- … so the caller can hand the very same object over again - after the first call, from any state satisfying the
+invariant - and gets the same answer -/
+theorem same_object_again (s : S) (h : Inv s) (form : BufForm) (data : Bits) (sn mask : Nat) (crc32 : Option Bytes) :
+    (step (step s (.crc9Parts form data sn mask crc32)).1 (step s (.crc9Parts form data sn mask crc32)).2.2).2.1
+      = (step s (.crc9Parts form data sn mask crc32)).2.1 := by
+  rw [conversion_copies s h, (noninterference _ _ (noninterference s _ h).2).1, (noninterference s _ h).1]
+
+/-- on whole octets the form does not matter: octets and the big-endian bit array holding them give the same CRC-9, and a
+little-endian bit array gives the CRC-9 of its buffer octets -/
+theorem form_irrelevant_on_octets (data : Bits) (sn mask : Nat) (crc32 : Option Bytes) :
+    pureOut (.crc9Parts (.bits false) data sn mask crc32) = pureOut (.crc9Parts .octets data sn mask crc32)
+    ∧ (data.length % 8 = 0 →
+        pureOut (.crc9Parts (.bits true) data sn mask crc32) = pureOut (.crc9Parts .octets (byteReverse data) sn mask crc32)) := by
+  refine ⟨rfl, fun h8 => ?_⟩
+  have hl : (byteReverse data).length = data.length := byteReverse_length data
+  show pureCrc9Parts _ _ _ _ _ = pureCrc9Parts _ _ _ _ _
+  unfold pureCrc9Parts crc9Source convBig
+  simp only [hl, h8, Nat.sub_zero, Nat.mod_self, List.replicate_zero, List.append_nil]
+
+/-- the century of a GPS date is a constant of the code, **the wall clock at import is irrelevant**: replace it by anything,
+every call answers the same (as `scratch_irrelevant` for the registers) -/
+theorem import_clock_irrelevant (s : S) (h : Inv s) (y : Nat) (c : Call) :
+    (step { s with importClock := y } c).2.1 = (step s c).2.1 := by
+  rw [(noninterference _ c (h.withClock y)).1, (noninterference s c h).1]
+
+/-- 29 February 2024 under an import clock of 1999, 2026 and 2101; 29 February 2100 does not exist whatever the clock -/
+example : (step { init with importClock := 1999 } (.gpsDate 29 2 24)).2.1 = .nat 20240229
+    ∧ (step { init with importClock := 2101 } (.gpsDate 29 2 24)).2.1 = .nat 20240229
+    ∧ (step init (.gpsDate 29 2 0)).2.1 = .nat 20000229 ∧ (step init (.gpsDate 31 4 26)).2.1 = .err "ValueError" := by decide +kernel
+
+/-! ### teeth: the two hazards (`stepUnsafe`, not code that ever existed) violate the statements -/
+
+/-- ten octets of user data of a confirmed block, handed over as a big-endian bit array; serial number 5, no mask, no CRC-32 -/
+def partsCall : Call := .crc9Parts (.bits false) (bytesToBits [0x12, 0x34, 0x56, 0x78, 0x9A, 0xBC, 0xDE, 0xF0, 0x0F, 0xA5]) 5 0 none
+
+/-- with a conversion that hands back a whole-octet bit array of the requested bit order as it is, the caller's buffer is
+seven bits longer after the call (the serial number `0000101`) … -/
+theorem unsafe_conversion_alters_argument :
+    (stepUnsafe init partsCall).2.2 = .crc9Parts (.bits false) (bytesToBits [0x12, 0x34, 0x56, 0x78, 0x9A, 0xBC, 0xDE, 0xF0, 0x0F, 0xA5]
+        ++ [false, false, false, false, true, false, true]) 5 0 none
+    ∧ (stepUnsafe init partsCall).2.2 ≠ partsCall := by decide +kernel
+
+/-- … the first answer is still the right one, the same call with the same object then answers differently (a checker built
+on it rejects the correct CRC-9), … -/
+theorem unsafe_conversion_second_call_differs :
+    (stepUnsafe init partsCall).2.1 = (step init partsCall).2.1
+    ∧ (stepUnsafe (stepUnsafe init partsCall).1 (stepUnsafe init partsCall).2.2).2.1 ≠ (stepUnsafe init partsCall).2.1 := by
+  decide +kernel
+
+/-- … the buffer grows also when the call RAISES afterwards (serial number 200: the CRC-32 octets are appended before `int2ba` fails), … -/
+theorem unsafe_conversion_alters_argument_when_raising :
+    (stepUnsafe init (.crc9Parts (.bits false) (bytesToBits [1, 2]) 200 0 (some [0xDE, 0xAD, 0xBE, 0xEF]))).2.1 = .err "OverflowError"
+    ∧ (stepUnsafe init (.crc9Parts (.bits false) (bytesToBits [1, 2]) 200 0 (some [0xDE, 0xAD, 0xBE, 0xEF]))).2.2
+        = .crc9Parts (.bits false) (bytesToBits [1, 2, 0xDE, 0xAD, 0xBE, 0xEF]) 200 0 (some [0xDE, 0xAD, 0xBE, 0xEF]) := by
+  decide +kernel
+
+/-- … and no other form is affected (octets, little-endian, a bit array that does not fill its last octet) -/
+theorem unsafe_conversion_other_forms_unaffected (s : S) (form : BufForm) (data : Bits) (sn mask : Nat) (crc32 : Option Bytes)
+    (hf : form ≠ .bits false ∨ data.length % 8 ≠ 0) :
+    stepUnsafe s (.crc9Parts form data sn mask crc32) = step s (.crc9Parts form data sn mask crc32) := by
+  show (if (form == BufForm.bits false && data.length % 8 == 0) = true then _ else _) = _
+  have : (form == BufForm.bits false && data.length % 8 == 0) = false := by
+    rcases hf with hf | hf
+    · simp [hf]
+    · simp [hf]
+  rw [this]; rfl
+
+/-- a two-digit year completed with the century of the clock AT IMPORT: the same octets parse to 2024, 2124 or 1924 -/
+theorem unsafe_century_depends_on_import_clock :
+    (stepUnsafe { init with importClock := 2026 } (.gpsDate 29 2 24)).2.1 = .nat 20240229
+    ∧ (stepUnsafe { init with importClock := 2101 } (.gpsDate 29 2 24)).2.1 = .nat 21240229
+    ∧ (stepUnsafe { init with importClock := 1999 } (.gpsDate 29 2 24)).2.1 = .nat 19240229
+    ∧ (stepUnsafe { init with importClock := 2101 } (.gpsDate 29 2 0)).2.1 = .err "ValueError" := by decide +kernel
+
 /-! ## the inventory of hidden state equals the reviewed list
 
 `Gen.hiddenState` is regenerated from the source on every run (`tools/scan_state.py`).  The list below was
@@ -213,8 +298,22 @@ reviewed item by item; judgement per kind:
 * `param-mutation`: the documented in-place repairs, table-filling helpers that are handed a fresh table
   (`fill_encoding_table`, `set_parity`), parameters that are rebound to a private copy before the write (marked
   by the scanner), and the P2P handler's `data` (rebound to a `bytearray` copy; handlers are C18).
-* `shared-mutation`: `get_token` / `get_attribute`, see below.
+* `shared-mutation`: `get_token` / `get_attribute`, see below; `cls.DEBUG =` in `MBXML.from_bytes` (an attribute of the
+  class assigned inside a method - `cls.X = …`, `ClassName.X = …`, `type(self).X = …`, `self.__class__.X = …`,
+  `function.attr = …`, `globals()[…] = …` are all inventoried, for every module).
 * `ambient-read`: `date.today()` inside `GPSData.zero()` (a default argument), `datetime.strptime` on an argument.
+* `ambient-read-at-import`: a clock / randomness / environment CALL evaluated when a module is imported (module level, class
+  body, decorator, parameter default), directly or through a function of the package.  Exactly one: the default
+  `GPSData.zero()` of `LocationProtocol.__init__`.  A second one is how a parser comes to depend on the wall clock of the
+  interpreter at import time (`CENTURY = date.today().year // 100 * 100`); the harness compares every entry point under
+  eight clock settings applied BEFORE the import (model: `S.importClock`, `import_clock_irrelevant` below).
+* `returns-argument`: a function that may hand back one of its parameters itself.  The caller of such a function holds the
+  ARGUMENT: an in-place operation on the "result" lands in the caller's buffer (`x = bytes_to_bits(data); x += …`), which is
+  why the scanner lets the taint of `param-mutation` flow through them.  On the reviewed tree: the documented in-place
+  repairs, `correct_numpy_array` (argument handed back untouched), table helpers working on their caller's fresh table,
+  identities of the not-interleaved IPSC packet types, and handlers / storage / tracker (C08, C18, C20).  No conversion of
+  `utils/bits_bytes.py` is among them: each returns a new object for every accepted form of its argument (harness: identity
+  and shared-memory test between argument and result for every form; model: `Call.crc9Parts`, `conversion_copies` below).
 -/
 
 def reviewed : List (String × String × String × String) := [
@@ -244,8 +343,12 @@ def reviewed : List (String × String × String × String) := [
   ("okdmr/dmrlib/etsi/fec/bptc_196_96.py", "BPTC19696", "class-mutable", "INTERLEAVE_INFO_BITS_ONLY_MAP: call dict"),
   ("okdmr/dmrlib/etsi/fec/bptc_196_96.py", "BPTC19696", "class-mutable", "INTERLEAVING_INDICES: dict"),
   ("okdmr/dmrlib/etsi/fec/bptc_196_96.py", "BPTC19696.fill_encoding_table", "param-mutation", "table: table[rownum - 1][..] ="),
+  -- table helper: fills and returns the table its caller has just made (make_encoding_table); no caller hands it a buffer of its own caller
+  ("okdmr/dmrlib/etsi/fec/bptc_196_96.py", "BPTC19696.fill_encoding_table", "returns-argument", "table"),
   -- in place only with deinterleaved=True, where it returns that very buffer (treated like the Hamming repair); otherwise works on the copy made by deinterleave_all_bits
   ("okdmr/dmrlib/etsi/fec/bptc_196_96.py", "BPTC19696.repair_if_necessary", "param-mutation", "bits: bits[..] = [parameter is also rebound in the function]"),
+  -- with deinterleaved=True returns its argument - the documented in-place repair; otherwise `bits` is rebound to the copy made by deinterleave_all_bits first (harness: bptc.repair / bptc.repair_deinterleaved, identity test between argument and result)
+  ("okdmr/dmrlib/etsi/fec/bptc_196_96.py", "BPTC19696.repair_if_necessary", "returns-argument", "bits [parameter is also rebound in the function]"),
   ("okdmr/dmrlib/etsi/fec/golay_20_8_7.py", "Golay2087", "class-mutable", "CORRECT_SYNDROME: call numpy.array"),
   ("okdmr/dmrlib/etsi/fec/golay_20_8_7.py", "Golay2087", "class-mutable", "GENERATOR_MATRIX: call numpy.array"),
   ("okdmr/dmrlib/etsi/fec/golay_20_8_7.py", "Golay2087", "class-mutable", "PARITY_CHECK_MATRIX: call derive_parity_check_matrix_from_generator"),
@@ -266,6 +369,10 @@ def reviewed : List (String × String × String × String) := [
   ("okdmr/dmrlib/etsi/fec/hamming_7_4_3.py", "Hamming743", "class-mutable", "PARITY_CHECK_MATRIX: call derive_parity_check_matrix_from_generator"),
   -- THE documented in-place repair: returns the repaired argument (modelled, `cac_buffer_is_result`)
   ("okdmr/dmrlib/etsi/fec/hamming_common.py", "HammingCommon.check_and_correct", "param-mutation", "bits: bits.invert()"),
+  -- THE documented in-place repair: hands back the repaired argument (`cac_buffer_is_result`)
+  ("okdmr/dmrlib/etsi/fec/hamming_common.py", "HammingCommon.check_and_correct", "returns-argument", "bits"),
+  -- hands its argument back UNTOUCHED when the word cannot be repaired (works on a bitarray copy otherwise): reviewed aliasing, listed in ALIAS_OK of harness/props/c19.py
+  ("okdmr/dmrlib/etsi/fec/hamming_common.py", "HammingCommon.correct_numpy_array", "returns-argument", "bits"),
   ("okdmr/dmrlib/etsi/fec/quadratic_residue_16_7_6.py", "QuadraticResidue1676", "class-mutable", "CORRECT_SYNDROME: call numpy.array"),
   ("okdmr/dmrlib/etsi/fec/quadratic_residue_16_7_6.py", "QuadraticResidue1676", "class-mutable", "GENERATOR_MATRIX: call numpy.array"),
   ("okdmr/dmrlib/etsi/fec/quadratic_residue_16_7_6.py", "QuadraticResidue1676", "class-mutable", "PARITY_CHECK_MATRIX: call derive_parity_check_matrix_from_generator"),
@@ -282,14 +389,22 @@ def reviewed : List (String × String × String × String) := [
   ("okdmr/dmrlib/etsi/fec/vbptc_128_72.py", "VBPTC12873", "class-mutable", "INTERLEAVE_INFO_BITS_ONLY_MAP: call dict"),
   ("okdmr/dmrlib/etsi/fec/vbptc_128_72.py", "VBPTC12873", "class-mutable", "INTERLEAVING_INDICES: dict"),
   ("okdmr/dmrlib/etsi/fec/vbptc_128_72.py", "VBPTC12873.fill_encoding_table", "param-mutation", "table: table[row_no - 1][..] ="),
+  -- table helper: fills and returns the table its caller has just made
+  ("okdmr/dmrlib/etsi/fec/vbptc_128_72.py", "VBPTC12873.fill_encoding_table", "returns-argument", "table"),
   ("okdmr/dmrlib/etsi/fec/vbptc_128_72.py", "VBPTC12873.set_parity", "param-mutation", "column: column[..] = [parameter is also rebound in the function]"),
+  -- table helper on a row / column of the caller's fresh table (a 7-element column is rebound to an appended copy)
+  ("okdmr/dmrlib/etsi/fec/vbptc_128_72.py", "VBPTC12873.set_parity", "returns-argument", "column [parameter is also rebound in the function]"),
   ("okdmr/dmrlib/etsi/fec/vbptc_32_11.py", "VBPTC3211", "class-mutable", "DEINTERLEAVE_INFO_BITS_ONLY_MAP: call dict"),
   ("okdmr/dmrlib/etsi/fec/vbptc_32_11.py", "VBPTC3211", "class-mutable", "FULL_DEINTERLEAVING_MAP: call dict"),
   ("okdmr/dmrlib/etsi/fec/vbptc_32_11.py", "VBPTC3211", "class-mutable", "FULL_INTERLEAVING_MAP: call dict"),
   ("okdmr/dmrlib/etsi/fec/vbptc_32_11.py", "VBPTC3211", "class-mutable", "INTERLEAVE_INFO_BITS_ONLY_MAP: call dict"),
   ("okdmr/dmrlib/etsi/fec/vbptc_32_11.py", "VBPTC3211", "class-mutable", "INTERLEAVING_INDICES: dict"),
   ("okdmr/dmrlib/etsi/fec/vbptc_32_11.py", "VBPTC3211.fill_encoding_table", "param-mutation", "table: table[row_no - 1][..] ="),
+  -- table helper: fills and returns the table its caller has just made
+  ("okdmr/dmrlib/etsi/fec/vbptc_32_11.py", "VBPTC3211.fill_encoding_table", "returns-argument", "table"),
   ("okdmr/dmrlib/etsi/fec/vbptc_32_11.py", "VBPTC3211.set_parity", "param-mutation", "column: column[..] ="),
+  -- table helper on a column of the caller's fresh table
+  ("okdmr/dmrlib/etsi/fec/vbptc_32_11.py", "VBPTC3211.set_parity", "returns-argument", "column"),
   ("okdmr/dmrlib/etsi/fec/vbptc_68_28.py", "VBPTC6828", "class-mutable", "DEINTERLEAVE_8BIT_CHECKSUM: call dict"),
   ("okdmr/dmrlib/etsi/fec/vbptc_68_28.py", "VBPTC6828", "class-mutable", "DEINTERLEAVE_INFO_BITS_ONLY_MAP: call dict"),
   ("okdmr/dmrlib/etsi/fec/vbptc_68_28.py", "VBPTC6828", "class-mutable", "FULL_DEINTERLEAVING_MAP: call dict"),
@@ -297,7 +412,11 @@ def reviewed : List (String × String × String × String) := [
   ("okdmr/dmrlib/etsi/fec/vbptc_68_28.py", "VBPTC6828", "class-mutable", "INTERLEAVE_INFO_BITS_ONLY_MAP: call dict"),
   ("okdmr/dmrlib/etsi/fec/vbptc_68_28.py", "VBPTC6828", "class-mutable", "INTERLEAVING_INDICES: dict"),
   ("okdmr/dmrlib/etsi/fec/vbptc_68_28.py", "VBPTC6828.fill_encoding_table", "param-mutation", "table: table[row_no - 1][..] ="),
+  -- table helper: fills and returns the table its caller has just made
+  ("okdmr/dmrlib/etsi/fec/vbptc_68_28.py", "VBPTC6828.fill_encoding_table", "returns-argument", "table"),
   ("okdmr/dmrlib/etsi/fec/vbptc_68_28.py", "VBPTC6828.set_parity", "param-mutation", "column: column[..] = [parameter is also rebound in the function]"),
+  -- table helper on a row / column of the caller's fresh table (rebound to an appended copy when short)
+  ("okdmr/dmrlib/etsi/fec/vbptc_68_28.py", "VBPTC6828.set_parity", "returns-argument", "column [parameter is also rebound in the function]"),
   -- aliased as self.full_bits, never written by the library: modelled (`burstBits`)
   ("okdmr/dmrlib/etsi/layer2/burst.py", "Burst.__init__", "mutable-default", "full_bits = bitarray([0] * 264) [call bitarray]"),
   -- lazy per-object memo of a value derived from the object's own data
@@ -313,6 +432,14 @@ def reviewed : List (String × String × String × String) := [
   ("okdmr/dmrlib/etsi/layer3/elements/service_options.py", "ServiceOptions.__init__", "mutable-default", "reserved = bitarray('00') [call bitarray]"),
   -- the parameter name is rebound to the new object before the attribute writes: no write to the argument
   ("okdmr/dmrlib/hytera/hytera_ipsc.py", "HyteraIPSC.from_ipsc_bytes", "param-mutation", "ipsc: ipsc.first_header =; ipsc.payload_pad =; ipsc.reserved_1 =; ipsc.reserved_2a =; ipsc.reserved_2b =; ipsc.reserved_3 =; ipsc.reserved_7a =; ipsc.second_header = [parameter is also rebound in the function]"),
+  -- the parameter name is rebound to the NEW HyteraIPSC object, which is what is returned; the argument octets are only sliced
+  ("okdmr/dmrlib/hytera/hytera_ipsc.py", "HyteraIPSC.from_ipsc_bytes", "returns-argument", "ipsc [parameter is also rebound in the function]"),
+  -- returns an int argument as it is (immutable)
+  ("okdmr/dmrlib/hytera/hytera_ipsc.py", "HyteraIPSC.from_kaitai.<locals>.get_kaitai_val", "returns-argument", "attribute"),
+  -- IPSC sync is not interleaved: identity, nothing is written; not a catalogued entry point (Burst.deinterleave does not dispatch to it)
+  ("okdmr/dmrlib/hytera/hytera_ipsc_sync.py", "HyteraIPSCSync.deinterleave", "returns-argument", "bits"),
+  -- IPSC wake-up is not interleaved: identity, nothing is written; not a catalogued entry point
+  ("okdmr/dmrlib/hytera/hytera_ipsc_wakeup.py", "HyteraIPSCWakeup.deinterleave", "returns-argument", "bits"),
   ("okdmr/dmrlib/hytera/pdu/hstrp.py", "HSTRPOptions.add_option", "self-mutation", "self.options: self.options.append()"),
   ("okdmr/dmrlib/hytera/pdu/location_protocol.py", "GPSData.__init__", "ambient-read", "datetime.date"),
   ("okdmr/dmrlib/hytera/pdu/location_protocol.py", "GPSData.__init__", "ambient-read", "datetime.time"),
@@ -322,6 +449,8 @@ def reviewed : List (String × String × String × String) := [
   ("okdmr/dmrlib/hytera/pdu/location_protocol.py", "GPSData.zero", "ambient-read", "datetime.time"),
   -- GPSData.zero() evaluated at import (date.today()); immutable afterwards; reaches as_bytes of a default-built StandardReport only
   ("okdmr/dmrlib/hytera/pdu/location_protocol.py", "LocationProtocol.__init__", "mutable-default", "gpsdata = GPSData.zero() [call GPSData.zero]"),
+  -- the ONE wall-clock read at import: the default GPSData.zero() carries the import day; reaches as_bytes of a default-built StandardReport only (harness: lp.default_gps compares it with the import date; the eight clock settings are applied before import). No parse path reads it
+  ("okdmr/dmrlib/hytera/pdu/location_protocol.py", "LocationProtocol.__init__.<default>", "ambient-read-at-import", "datetime.date.today() through GPSData.zero()"),
   -- aliased as self.status_change_settings, only iterated: modelled (`rcpSettings`)
   ("okdmr/dmrlib/hytera/pdu/radio_control_protocol.py", "RadioControlProtocol.__init__", "mutable-default", "status_change_settings = dict() [call dict]"),
   ("okdmr/dmrlib/hytera/snmp.py", "<module>", "module-global", "community: call sys.argv[2].lower"),
@@ -329,14 +458,16 @@ def reviewed : List (String × String × String × String) := [
   ("okdmr/dmrlib/hytera/snmp.py", "SNMP", "class-mutable", "ALL_KNOWN: list"),
   ("okdmr/dmrlib/hytera/snmp.py", "SNMP", "class-mutable", "ALL_STRINGS: list"),
   ("okdmr/dmrlib/hytera/snmp.py", "SNMP", "class-mutable", "READABLE_LABELS: dict"),
+  -- `data` is rebound to a slice (bytes: a copy) before it is returned
+  ("okdmr/dmrlib/motorola/automatic_registration_service.py", "AutomaticRegistrationService.read_len_val", "returns-argument", "data [parameter is also rebound in the function]"),
   ("okdmr/dmrlib/motorola/automatic_registration_service.py", "ResponseSecondHeader.context", "self-mutation", "self: self.first_header ="),
   ("okdmr/dmrlib/motorola/lrrp.py", "LRRP", "class-mutable", "ANSWER_AND_REPORT_MESSAGES_ELEMENT_TOKENS: dict"),
   ("okdmr/dmrlib/motorola/lrrp.py", "LRRP", "class-mutable", "ATTRIBUTE_TOKENS: dict"),
   ("okdmr/dmrlib/motorola/lrrp.py", "LRRP", "class-mutable", "COMMON_ELEMENT_TOKENS: dict"),
   ("okdmr/dmrlib/motorola/lrrp.py", "LRRP", "class-mutable", "LRRP_CONSTANT_TABLE: dict"),
   ("okdmr/dmrlib/motorola/lrrp.py", "LRRP", "class-mutable", "QUERY_REQUEST_MESSAGES_ELEMENT_TOKENS: dict"),
-  -- class flag DEBUG: printing only, reset at the start of every from_bytes: in `S`, unconstrained, read by nothing modelled
-  ("okdmr/dmrlib/motorola/mbxml.py", "MBXML.from_bytes", "self-mutation", "cls: cls.DEBUG ="),
+  -- class flag DEBUG: printing only, reset at the start of every from_bytes: in `S`, unconstrained, read by nothing modelled (was listed as self-mutation of `cls` before the scanner told class methods apart)
+  ("okdmr/dmrlib/motorola/mbxml.py", "MBXML.from_bytes", "shared-mutation", "cls: cls.DEBUG ="),
   ("okdmr/dmrlib/motorola/mbxml.py", "MBXML.write_infotime", "ambient-read", "datetime.datetime"),
   ("okdmr/dmrlib/motorola/mbxml.py", "MBXML.write_infotime", "ambient-read", "datetime.datetime.strptime"),
   -- writes to a shallow copy of the definition (token_id, value are rebinding of scalars): no shared write
@@ -347,14 +478,26 @@ def reviewed : List (String × String × String × String) := [
   ("okdmr/dmrlib/motorola/text_messaging_service.py", "TextMessagingService.as_bytes", "self-mutation", "self.header: self.header.set_has_more_headers()"),
   ("okdmr/dmrlib/protocols/hytera/p2p_datagram_protocol.py", "P2PDatagramProtocol", "class-mutable", "KNOWN_PACKET_TYPES: list"),
   ("okdmr/dmrlib/protocols/hytera/p2p_datagram_protocol.py", "P2PDatagramProtocol.get_redirect_packet", "param-mutation", "data: data Add= (in place if the object is mutable); data[..] = [parameter is also rebound in the function]"),
+  -- protocol handler (C18), `data` rebound to a bytearray copy first
+  ("okdmr/dmrlib/protocols/hytera/p2p_datagram_protocol.py", "P2PDatagramProtocol.get_redirect_packet", "returns-argument", "data [parameter is also rebound in the function]"),
   ("okdmr/dmrlib/protocols/hytera/p2p_datagram_protocol.py", "P2PDatagramProtocol.handle_dmr_request", "param-mutation", "data: data.append(); data[..] =; data[..] op= [parameter is also rebound in the function]"),
   ("okdmr/dmrlib/protocols/hytera/p2p_datagram_protocol.py", "P2PDatagramProtocol.handle_ping", "param-mutation", "data: data[..] = [parameter is also rebound in the function]"),
   ("okdmr/dmrlib/protocols/hytera/p2p_datagram_protocol.py", "P2PDatagramProtocol.handle_rdac_request", "param-mutation", "data: data.append(); data[..] =; data[..] op= [parameter is also rebound in the function]"),
   ("okdmr/dmrlib/protocols/hytera/p2p_datagram_protocol.py", "P2PDatagramProtocol.handle_registration", "param-mutation", "data: data.append(); data[..] =; data[..] op= [parameter is also rebound in the function]"),
+  -- storage (C20): returns the value it was given to store
+  ("okdmr/dmrlib/storage/repeater.py", "Repeater.attr", "returns-argument", "value"),
   ("okdmr/dmrlib/storage/repeater.py", "Repeater.patch", "mutable-default", "patch = {} [dict]"),
   ("okdmr/dmrlib/storage/repeater_storage.py", "RepeaterStorage.match_incoming", "mutable-default", "patch = {} [dict]"),
   ("okdmr/dmrlib/storage/repeater_storage.py", "RepeaterStorage.save", "mutable-default", "patch = {} [dict]"),
+  -- storage (C20): returns the repeater it was given to save
+  ("okdmr/dmrlib/storage/repeater_storage.py", "RepeaterStorage.save", "returns-argument", "rpt"),
+  -- transmission tracker (C08): sequence / stream numbers are set on the burst object that process_packet hands back (the argument); outside the codec entry points
+  ("okdmr/dmrlib/transmission/timeslot.py", "Timeslot.process_burst", "param-mutation", "dmrdata: self.transmission.process_packet(dmrdata).set_seq..()"),
   ("okdmr/dmrlib/transmission/transmission.py", "Transmission.fix_voice_burst_type", "param-mutation", "burst: burst.set_is_voice()"),
+  -- transmission tracker (C08): returns the burst it (possibly) re-typed
+  ("okdmr/dmrlib/transmission/transmission.py", "Transmission.fix_voice_burst_type", "returns-argument", "burst"),
+  -- transmission tracker (C08): returns the burst it was given
+  ("okdmr/dmrlib/transmission/transmission.py", "Transmission.process_packet", "returns-argument", "burst [parameter is also rebound in the function]"),
   -- since 2d27283 swaps a private copy (`data = bytearray(data)`): modelled (`byteswap`)
   ("okdmr/dmrlib/utils/bits_bytes.py", "byteswap_bytearray", "param-mutation", "data: data[..] = [parameter is also rebound in the function]"),
   ("okdmr/dmrlib/utils/log_color_formatter.py", "LogColorFormatter", "class-mutable", "FORMATS: dict")]
